@@ -20,8 +20,8 @@ func init() {
 			"import = SetMetaAndSnapshot followed by ResetTransaction, as the SDK's own init does; a bare SetMetaAndSnapshot followed by a failing user transaction is outside the claim (DESIGN.md D18)",
 			"canonical snapshot form: JSON-decoded; document node table sorted by creation timestamp; an array slot [order, created] with created == order equals [order]",
 		},
-		Cases: func(t string) int { return tierN(t, 1200, 40000) },
-		Floor: func(t string) int { return tierN(t, 250, 8000) },
+		Cases: func(t string) int { return tierN(t, 3000, 40000) },
+		Floor: func(t string) int { return tierN(t, 600, 8000) },
 		Run:   runC10,
 	})
 }
